@@ -146,6 +146,7 @@ theorem readTL_at (r : Rd) (buf : Bytes) (p x : Nat) (t : Bytes) (h : At r buf p
         have : (buf.drop (p + 1)).take 8 = be 8 x := by rw [hd]; simp
         simp [readTL, e1, tlExtra, e2, this, accBytes_be 8 x (by omega) (by simp [u64])]
 
+
 /-- natural / fixedUint value of `k` bytes -/
 theorem readNat_at (r : Rd) (buf : Bytes) (p k x w : Nat) (t : Bytes) (h : At r buf p)
     (hb : buf.drop p = be k x ++ t) (hx : x < 256 ^ k) (hk : 256 ^ k ≤ u64) (hlen : buf.length < 2 ^ 63) :
